@@ -242,6 +242,32 @@ theorem C15_bddToMdd_partial (S : Int → MAsg → Bool) (L : Nat → Nat)
     have : s = ((u : Nat) : Int) := by omega
     rw [hden α hα, this]
 
+/-- the same, about `bdd_to_mdd` itself: whenever the call succeeds, and the preparation
+(collect, reorder into zones, selection of the zone-entry nodes) establishes a property `P` of
+the BDD manager under which every iteration's BDD side delivers `BddSideOK` for the nodes `K`
+that the loop keeps, the returned MDD manager satisfies its invariant, has the variables
+`dvars`, and every `umap` entry (complemented by `flip` when the BDD reference is) denotes the
+intended function -/
+theorem C15_bddToMdd_partial_call (S : Int → MAsg → Bool) (L : Nat → Nat)
+    (hSneg : ∀ x α, x ≠ 0 → S (-x) α = !S x α) (hS1 : ∀ α, S 1 α = true)
+    (dvars : List MVar) (lev : Option (List Nat)) (mb : Mgr) (out : B2MOut) (mb' : Mgr)
+    (hL1 : L 1 ≤ dvars.length) (P : Mgr → Prop) (K : Nat → Prop)
+    (hPrep : ∀ p mb1, b2mPrepare dvars mb = (.ok p, mb1) →
+      P mb1 ∧
+      (∀ ord, bddLevelsOrder p.tbl lev = .ok ord → ∀ u, u ∈ ord → p.rm.contains u = false → K u) ∧
+      (∀ u umap mbx var succs mby, P mbx → K u →
+        b2mIntSucc p.bitToVar u umap mbx = (.ok (var, succs), mby) →
+        P mby ∧ BddSideOK S L u umap var succs))
+    (hr : bddToMdd dvars lev mb = (.ok out, mb')) :
+    P mb' ∧ MInv out.mdd ∧ out.mdd.tbl.vars = dvars ∧
+    ∀ (u : Nat) (r : Int), out.umap.lookup u = some r →
+      out.mdd.tbl.Mem r ∧ ∀ (s : Int), s.natAbs = u → ∀ α, MValid out.mdd.tbl α →
+        denM out.mdd.tbl (flip r s) α = S s α := by
+  obtain ⟨p, mb1, ord, hp, ho, hloop⟩ := bddToMdd_unfold dvars lev mb out mb' hr
+  obtain ⟨hP, hK, hB⟩ := hPrep p mb1 hp
+  exact C15_bddToMdd_partial S L hSneg p.rm p.bitToVar P K hB ord dvars mb1 out mb' (hK ord ho) hP
+    hS1 hL1 hloop
+
 /-- the hypotheses of `C15_bddToMdd_partial` are jointly satisfiable (degenerate instance: the
 constant BDD, nothing to convert; `S` = "the reference is regular").  A non-degenerate instance
 of the BDD-side hypothesis cannot be evaluated in the kernel (the memo of `cofactorF` is a
